@@ -93,6 +93,69 @@ Proof.
   apply IH; lia.
 Qed.
 
+(* validate_tree: every iteration pops one index and every push marks a node that was
+   not marked before, so (unmarked nodes + stack length) drops by one per iteration *)
+Fixpoint count_false (l : list bool) : nat :=
+  match l with [] => 0 | b :: r => (if b then 0 else 1) + count_false r end.
+
+Lemma count_false_upd l k :
+  nth_error l k = Some false -> forall l', upd l k (fun _ => true) = Some l' ->
+  S (count_false l') = count_false l.
+Proof.
+  revert k. induction l as [|b r IH]; intros k Hk l' Hu; destruct k as [|k]; simpl in *; try discriminate.
+  - injection Hk as ->. injection Hu as <-. simpl. reflexivity.
+  - destruct (upd r k (fun _ => true)) as [r'|] eqn:E; [|discriminate]. injection Hu as <-.
+    simpl. rewrite <- (IH k Hk r' E). destruct b; simpl; lia.
+Qed.
+
+Lemma count_false_le l : count_false l <= length l.
+Proof. induction l as [|b r IH]; simpl; [lia|]. destruct b; simpl; lia. Qed.
+
+Lemma visit_child_measure ns visited stack i c v' st' :
+  visit_child ns visited stack i c = Ok (v', st') ->
+  count_false v' + length st' = count_false visited + length stack.
+Proof.
+  unfold visit_child. destruct c as [k|]; [|intros [= <- <-]; reflexivity].
+  destruct (nth_error ns k) as [cn|]; [|discriminate].
+  destruct (nth_error visited k) as [[|]|] eqn:Ev; try discriminate.
+  destruct (opt_nat_eqb _ _); [|discriminate].
+  destruct (upd visited k (fun _ => true)) as [v2|] eqn:Eu; [|discriminate].
+  intros [= <- <-]. simpl. pose proof (count_false_upd visited k Ev v2 Eu). lia.
+Qed.
+
+Lemma visit_child_total ns visited stack i c : total (visit_child ns visited stack i c).
+Proof. unfold visit_child. tot. Qed.
+
+Lemma validate_go_total fuel ns : forall visited stack,
+  count_false visited + length stack < fuel -> total (validate_go fuel ns visited stack).
+Proof.
+  induction fuel as [|fuel IH]; intros visited stack H; [lia|].
+  simpl. destruct stack as [|i rest]; [exact I|].
+  destruct (match nth_error ns i with Some n => (n_left n, n_right n) | None => (None, None) end) as [l r].
+  destruct (visit_child ns visited rest i l) as [[v1 st1]| | |] eqn:E1; simpl; try exact I.
+  - destruct (visit_child ns v1 st1 i r) as [[v2 st2]| | |] eqn:E2; simpl; try exact I.
+    + apply IH. apply visit_child_measure in E1. apply visit_child_measure in E2. simpl in H. lia.
+    + pose proof (visit_child_total ns v1 st1 i r) as T. rewrite E2 in T. exact T.
+    + pose proof (visit_child_total ns v1 st1 i r) as T. rewrite E2 in T. exact T.
+  - pose proof (visit_child_total ns visited rest i l) as T. rewrite E1 in T. exact T.
+  - pose proof (visit_child_total ns visited rest i l) as T. rewrite E1 in T. exact T.
+Qed.
+
+Lemma upd_length {A} (l : list A) k f l' : upd l k f = Some l' -> length l' = length l.
+Proof.
+  revert k l'. induction l as [|a r IH]; intros k l' H; destruct k; simpl in *; try discriminate.
+  - injection H as <-. reflexivity.
+  - destruct (upd r k f) eqn:E; [|discriminate]. injection H as <-. simpl. f_equal. eapply IH; eauto.
+Qed.
+
+Lemma validate_tree_total ns root : total (validate_tree ns root).
+Proof.
+  unfold validate_tree. destruct (upd (map (fun _ => false) ns) root (fun _ => true)) as [v0|] eqn:E; [|exact I].
+  apply total_bind; [|intros v; destruct (unvisited_ok ns v); exact I].
+  apply validate_go_total. simpl.
+  pose proof (count_false_le v0). apply upd_length in E. rewrite map_length in E. lia.
+Qed.
+
 Theorem parse_total toks : total (parse toks).
 Proof.
   unfold parse, parse_trimmed.
@@ -102,6 +165,6 @@ Proof.
   destruct (_ && _); [exact I|].
   destruct (group_stack st); [|exact I].
   match goal with |- total (match ?l with _ => _ end) => destruct l as [|n0 ns] eqn:E end; [exact I|].
-  apply total_bind; [|intros; exact I].
-  apply find_root_total; simpl; lia.
+  apply total_bind; [apply find_root_total; simpl; rewrite ?map_length; lia|].
+  intros root. apply total_bind; [apply validate_tree_total|intros; exact I].
 Qed.
